@@ -459,7 +459,9 @@ def judge(ck, cases, stream, res=None, malformed_ok=False):
     model = ck.model(["packmodel " + c["body"] for c in cases])
     with_list = [c for c in cases if c["real"] is not None]
     spec = dict(zip((id(c) for c in with_list), ck.model(["packspec " + c["body"] + " passes=" + c["real"] for c in with_list])))
-    for c, m in zip(cases, model):
+    # real pass lists first (a Spec violation comes with its failing input), the cases in which the real function raised last
+    order = sorted(range(len(cases)), key=lambda i: cases[i]["real"] is None)
+    for c, m in ((cases[i], model[i]) for i in order):
         res.evaluations += 1
         ck.count(f"packing_{stream}_cases")
         where = f"{stream} {c.get('origin', '')} operators {c['ops']}"
